@@ -279,8 +279,22 @@ class RunA:
                     self.oracle('C09.type')
                 return 'ume', e
             if isinstance(e, RecursionError):
-                self.probe('recursion_error_exempt')
-                return 'exc', e
+                # Exempt only the interpreter's own limit on inputs nested
+                # deeper than the property covers (64 levels).  A nesting
+                # level costs at least 5 bytes on the wire (tag + 32-bit
+                # length), and a genuine overflow leaves hundreds of library
+                # frames in the traceback; a RecursionError on a small
+                # buffer or with a shallow traceback was raised by the
+                # library itself on an input the property covers.
+                depth = 0
+                tb = e.__traceback__
+                while tb is not None:
+                    if lib.is_lib_file(tb.tb_frame.f_code.co_filename):
+                        depth += 1
+                    tb = tb.tb_next
+                if len(buf) >= 64 * 5 and depth > 128:
+                    self.probe('recursion_error_exempt')
+                    return 'exc', e
             self.oracle('C09.type')
             tb = e.__traceback__
             fn = '?'
